@@ -104,3 +104,8 @@ mod state;
 mod storage;
 mod telemetry;
 mod writer;
+
+#[cfg(metrics_verif)]
+#[doc(hidden)]
+#[allow(missing_docs, clippy::all, clippy::pedantic)]
+pub mod __verif;
